@@ -760,3 +760,22 @@ CHECKS["C01"]["text"] += (
     "their own in the histories (all modes).")
 CHECKS["C16"]["text"] += (
     " After reset_filter() every event is eligible at once.")
+CHECKS["C03"]["text"] += (
+    " A scalar feature with invalid values may arrive on the open dataset "
+    "(action AddFeature): from then on its invalid events count.")
+CHECKS["C05"]["text"] += (
+    " The pixelation reference is the published formula written out "
+    "independently; a user-supplied table over (volume, deform) is run "
+    "through the same law.")
+CHECKS["C06"]["text"] += (
+    " A further variant holds the channels 1 and 3 only (the crosstalk "
+    "coefficients of that pair are edited).")
+CHECKS["C12"]["text"] += (
+    " The same values held as int64, float32 and float64 give the same "
+    "density estimates.")
+CHECKS["C14"]["text"] += (
+    " The same few directories are reused for all graphs of a process: what "
+    "a location holds is replaced between graphs.")
+CHECKS["C15"]["text"] += (
+    " Classification does not depend on the data type of the x data "
+    "(integers, float32).")
